@@ -40,10 +40,13 @@ def alias(rng, path):
 
 def gen_programs(rng, nclients, big_ok=True, kinds=None, nshared=None):
     shared = ["f", "d/g"][: (nshared or rng.range(1, 2))]
+    if nshared is None and rng.chance(1, 6):
+        # names that merely LOOK like the hub's own control directory are ordinary paths: writable, listable
+        shared[0] = rng.pick([".copiaignore", ".copia-old/x", ".copia.d/y", "sub/.copia"])
     contents = {"init-f": b"initial content of f", "init-g": b"initial g " * 50}
     initial = {}
     if rng.chance(2, 3):
-        initial["f"] = "init-f"
+        initial[shared[0]] = "init-f"
     if "d/g" in shared and rng.chance(1, 2):
         initial["d/g"] = "init-g"
     programs = []
@@ -1257,9 +1260,17 @@ def gen_c12_input(rng, b3, idx, sweep=None):
             data = full[:pos]
             inval = pos < len(cbor.MAGIC) + len(cbor.req_hello()) + 4
             return {"data": data, "cls": "cut-point", "invalid": inval, "prefixes": [], "content": content}
-    k = rng.below(14)
+    k = rng.below(15)
     prefixes = []
     inval = False
+    if k == 14:
+        # a well-formed Put whose declared length is absurd (arithmetic on it must not wrap): some bytes follow,
+        # among them a complete Put frame that must never be carried out, then the input ends
+        ln = rng.pick([(1 << 64) - 1, (1 << 64) - 4095, (1 << 64) - 4096, 1 << 63, (1 << 63) - 1, 1 << 40, (1 << 32) - 1, 1 << 32, (1 << 32) + 1])
+        decoy = b"decoy"
+        tail = rng.pick([b"", b"x" * 100, cbor.req_put("decoy", None, len(decoy), b3.data(decoy)) + decoy, b"y" * 70000])
+        data = cbor.MAGIC + cbor.req_hello() + cbor.req_put(rng.pick(["a", "d/new", "keep"]), None, ln, b3.data(b"whatever")) + tail
+        return {"data": data, "cls": "put-with-absurd-length", "invalid": False, "prefixes": [], "content": content, "path": spath}
     if k == 13:
         # two things wrong at once: a well-formed Put the hub must refuse (path) AND input that ends inside its
         # content - the refusal's drain must notice the end of input like every other read
@@ -1621,6 +1632,15 @@ def gen_local_tree(rng, universe, hostile=True):
                 files[p] = files[p][: rng.pick([262144, 131072])] + bytes(rng.pick([262144, 524288]))
             elif zk == 2:
                 files[p] = bytes(262144) + b"tail-after-a-zero-buffer" + bytes(rng.pick([0, 262144 - 24]))
+    # one tree cannot hold `d` both as a file and as a directory; different clients' trees can (and then the hub has
+    # a directory where this client has a file, or the other way round)
+    for p in sorted(files):
+        if any(q != p and q.startswith(p + "/") for q in files):
+            if rng.chance(1, 2):
+                del files[p]
+            else:
+                for q in [q for q in files if q.startswith(p + "/")]:
+                    del files[q]
     if not files:
         files[universe[0]] = b"only"
     return files
@@ -1630,7 +1650,12 @@ def hub_universe(rng, n=6):
     from fsutil import HOSTILE_COMPONENTS
     pool = ["a", "d/b", "d/e/c", "with space", "it's", "q?x", "st*r", "new\nline", "-dash", "é日", "$x", "..x", "x..", "back\\slash", "tab\tx",
             ".copiaignore", ".copia-notes/todo", ".copi", "d/.copia/x"]
-    return rng.shuffle(pool)[:n]
+    uni = rng.shuffle(pool)[:n]
+    if rng.chance(1, 3):
+        # a name that is a file in one client's tree and a directory in another's
+        deep = [p for p in uni if "/" in p]
+        uni.append(rng.pick(deep).split("/")[0] if deep else "a/inner")
+    return uni
 
 
 def materialise(base, files):
@@ -1988,6 +2013,7 @@ def _c13_gate_worker(args):
         os.makedirs(home)
         root = os.path.join(wd, "hub")
         uni = hub_universe(rng, 4)
+        uni = [p for p in uni if not any(q.startswith(p + "/") for q in uni)]  # the gated part has no file/directory clashes
         initial = {p: b"hub-initial:" + p.encode() for p in uni if rng.chance(1, 2)}
         materialise(root, initial)
         locs = []
